@@ -65,6 +65,18 @@ def gen_cases(ctx):
          "decl": {"name": "Core", "tparams": [], "typedoc": None, "members": [
              {"k": "f", "name": "name", "type": "int", "new": False, "def": None}]}}]}
     cases.append(make_case("w1", fixed))
+    # a foreign embedded struct's private field spelled like a DEEPER own-package field: it hides nothing
+    def F(name, ty="int", **kw):
+        d = {"k": "f", "name": name, "type": ty, "new": False, "def": None, "tagskip": False}
+        d.update(kw)
+        return d
+    cases.append(make_case("w3", {"name": "T", "tparams": [], "typedoc": None, "members": [
+        {"k": "e", "ptr": False, "new": False, "pkg": "sub", "decl": {"name": "Stamp", "tparams": [], "typedoc": None, "pkg": "sub",
+                                                                       "members": [F("By", "string"), F("version", foreign_unexported=True)]}},
+        {"k": "e", "ptr": False, "new": False, "pkg": None, "decl": {"name": "Meta", "tparams": [], "typedoc": None, "members": [
+            F("author", "string"),
+            {"k": "e", "ptr": True, "new": False, "pkg": None, "decl": {"name": "Rev", "tparams": [], "typedoc": None, "members": [F("version"), F("lang", "string")]}}]}},
+        F("title", "string")]}))
     # witness of the known finding F_skipWithDef: a left-out field that carries a default
     cases.append(make_case("w2", {"name": "T", "tparams": [], "typedoc": None, "members": [
         {"k": "f", "name": "name", "type": "int", "new": False, "def": None},
@@ -135,10 +147,18 @@ def run_cases(ctx, cases):
         m = model.get(c["id"])
         if not m:
             continue
+        # reflect's FieldByName ignores the package of an unexported name: the selector observation is not usable for a
+        # spelling that a foreign unexported field shares
+        fnames = newgen.foreign_names(c["spec"])
+        for n in fnames:
+            impl[c["id"]].pop("sel:" + n, None)
         for side in ("model", "spec"):
             d = m[side]
             d["exit"] = "0"
             d["compile"] = "ok"
+            for n in fnames:
+                d.pop("sel:" + n, None)
+                d.pop("sel:sub." + n, None)
     return impl, model
 
 
